@@ -99,6 +99,12 @@ Proof. exact write_options_then_load. Qed.
 Goal True. idtac "ASSUME C18_write_options_then_load". Abort.
 Print Assumptions C18_write_options_then_load.
 
+(* numbers are parsed as numbers: the decimal text of any integer reads back as that integer *)
+Theorem C18_int_text_roundtrip : forall z, parse_int (print_int z) = Some z.
+Proof. exact parse_print_int. Qed.
+Goal True. idtac "ASSUME C18_int_text_roundtrip". Abort.
+Print Assumptions C18_int_text_roundtrip.
+
 (* command line: k=v is split at the first '=', '-' in the key reads as '_' *)
 Theorem C18_cli_split : forall k v, forallb (fun x => negb (x =? 61)) k = true ->
   split_param (k ++ 61 :: v) = Some (map (fun ch => if ch =? 45 then 95 else ch) k, v).
